@@ -4,6 +4,7 @@ import (
 	"bytes"
 	"fmt"
 	"net"
+	"strconv"
 	"strings"
 	"sync"
 	"time"
@@ -363,6 +364,71 @@ func decodeConv(s string) (writes [][]byte, ws [][]finfo, ok bool) {
 	return
 }
 
+// runConvPieces sends the pieces one write each (tiny pauses so that the server mostly sees them as separate reads)
+// and then reads until `total` replies have arrived (plus a short linger for replies that should not come).
+func runConvPieces(pieces [][]byte, total int) (res convResult) {
+	convStart()
+	convMu.Lock()
+	defer convMu.Unlock()
+	rec := &convRecorder{}
+	convCurMu.Lock()
+	convCur = rec
+	convCurMu.Unlock()
+	c, err := net.DialTimeout("tcp", convAddr, 2*time.Second)
+	if err != nil {
+		res.closed = true
+		return res
+	}
+	defer func() {
+		c.Close()
+		for i := 0; i < 400; i++ {
+			left := false
+			for _, e := range rec.snapshot() {
+				if e.kind == "leave" {
+					left = true
+				}
+			}
+			if left {
+				break
+			}
+			time.Sleep(time.Millisecond)
+		}
+		res.events = rec.snapshot()
+	}()
+	for _, p := range pieces {
+		if _, err := c.Write(p); err != nil {
+			res.closed = true
+			return res
+		}
+		if len(pieces) < 200 {
+			time.Sleep(150 * time.Microsecond)
+		}
+	}
+	var rest []byte
+	buf := make([]byte, 65536)
+	deadline := time.Now().Add(5 * time.Second)
+	for {
+		if len(res.replies) >= total {
+			_ = c.SetReadDeadline(time.Now().Add(15 * time.Millisecond))
+		} else {
+			_ = c.SetReadDeadline(deadline)
+		}
+		n, err := c.Read(buf)
+		if n > 0 {
+			var fs [][]byte
+			fs, rest = splitFrames(append(rest, buf[:n]...))
+			res.replies = append(res.replies, fs...)
+		}
+		if err != nil {
+			if ne, ok := err.(net.Error); ok && ne.Timeout() {
+				return res
+			}
+			res.closed = true
+			return res
+		}
+	}
+}
+
 func execConv(c fw.Case) string {
 	writes, ws, ok := decodeConv(c.Args[0])
 	expect := make([]int, len(writes))
@@ -370,6 +436,33 @@ func execConv(c fw.Case) string {
 		for i, rs := range specConv(ws) {
 			expect[i] = len(rs)
 		}
+	}
+	if c.Op == "convcut" {
+		// the same byte stream, delivered in pieces cut at random places (inside headers, bodies, escape pairs,
+		// right before and after delimiters); replies are collected at the end
+		total := 0
+		for _, e := range expect {
+			total += e
+		}
+		var stream []byte
+		for _, w := range writes {
+			stream = append(stream, w...)
+		}
+		seed, _ := strconv.ParseUint(c.Args[1], 10, 64)
+		pieces := cutStream(stream, seed)
+		exp := make([]int, len(pieces))
+		if len(exp) > 0 {
+			exp[len(exp)-1] = total
+		}
+		res := runConvPieces(pieces, total)
+		var hs []string
+		for _, r := range res.replies {
+			hs = append(hs, fw.Hex(r))
+		}
+		if res.closed {
+			return "[" + strings.Join(hs, ",") + "] closed"
+		}
+		return fmt.Sprintf("[%s] next=%d", strings.Join(hs, ","), len(res.replies)%65536)
 	}
 	res := runConvOpt(writes, expect, c.Op == "convrace")
 	var hs []string
@@ -385,7 +478,7 @@ func execConv(c fw.Case) string {
 
 func oracleC06(c fw.Case) *fw.OracleFailure {
 	if c.Op != "conv" && c.Op != "convrace" {
-		return nil
+		return nil // convcut: the reply list is fixed by the specification; compared with the model (functional op)
 	}
 	writes, ws, ok := decodeConv(c.Args[0])
 	if !ok {
@@ -536,6 +629,7 @@ func genC06(r *fw.Rng, tier string, emit func(fw.Case)) {
 		nw := 1 + r.Intn(6)
 		var pending *transferSpec
 		var order []int
+		hadTransfer := false
 		for w := 0; w < nw; w++ {
 			var data []byte
 			k := 1 + r.Intn(3)
@@ -544,6 +638,7 @@ func genC06(r *fw.Rng, tier string, emit func(fw.Case)) {
 					t := randTransfer(r, uint16(r.Pick([]int{0x0801, 0x0200, 0x0704, 0x0102})), 4)
 					t.phone, t.v2019 = phone, v2019
 					pending, order = &t, arrival(r, len(t.bodies), 10)
+					hadTransfer = true
 				}
 				if pending != nil && r.Chance(60) {
 					no := order[0]
@@ -562,6 +657,11 @@ func genC06(r *fw.Rng, tier string, emit func(fw.Case)) {
 			ws = append(ws, pchunk{0, data})
 		}
 		emit(fw.Case{Op: "conv", Args: []string{encodeSession(ws)}})
+		// (a completed transfer is delivered at the end of the read that completed it, so with sub-packages the order of
+		// replies legitimately depends on where the reads end; convcut uses conversations without them)
+		if i%5 == 0 && len(ws) > 0 && !hadTransfer {
+			emit(fw.Case{Op: "convcut", Args: []string{encodeSession(ws), strconv.Itoa(1 + r.Intn(1000000))}})
+		}
 	}
 	// racing conversations: equal-length frames whose replies depend on the body, one frame per write, not
 	// waiting for the answers, slow write callback (the reader runs ahead of the writer)
